@@ -139,6 +139,15 @@ theorem listing_order_irrelevant_subdir (dirs : List String) (n : String) (es es
   unfold walkEntry
   rw [sortedListing_congr (dirs ++ [n]) es es' hp hnd]
 
+/-- **canonical_determines** — at every depth at once: the table depends on the tree only
+through its canonical form (`canonical`: every directory, at every depth, listed in name order).
+Two trees that differ only in the order in which directories happen to be listed have the same
+table. -/
+theorem canonical_determines (π : List Decl → List Decl) (t t' : Tree) (h : canonical t = canonical t') :
+    findRedirectsWith π t = findRedirectsWith π t' := by
+  unfold findRedirectsWith findRedirectsOrd
+  rw [← sourceFiles_canonical t, ← sourceFiles_canonical t', h]
+
 /-! ## Negative witness for the defect that was repaired (D12) -/
 
 /-- the smallest tree on which the visiting order matters: one file, two annotated functions -/
@@ -168,6 +177,13 @@ example : findRedirects
                         decls := [.other ["//go:redirect-from runtime.onVar"],
                                   .func "alloc" ["// doc", "// see //go:redirect-from x", "//go:redirect-from \truntime.sysAlloc  "]] }]]
     = [("runtime.sysAlloc", "github.com/ProjectSerenity/firefly/kernel/mm.alloc")] := by decide
+
+/-- a test file contributes nothing -/
+example : findRedirects [.file { name := "a_test.go", comments := [], decls := [.func "t" ["//go:redirect-from runtime.x"]] }] = [] := by decide
+
+/-- two listings of the same tree that differ two levels down have the same canonical form -/
+example : canonical [.dir "mm" [.dir "vmm" [.file ⟨"b.go", [], []⟩, .file ⟨"a.go", [], []⟩], .file ⟨"z.go", [], []⟩]]
+        = canonical [.dir "mm" [.file ⟨"z.go", [], []⟩, .dir "vmm" [.file ⟨"a.go", [], []⟩, .file ⟨"b.go", [], []⟩]]] := by rfl
 
 /-- hypotheses of `exactly_once` and `listing_order_irrelevant` are satisfiable non-trivially -/
 example : ∀ ds : List Decl, (List.reverse ds).Perm ds := fun ds => List.reverse_perm ds
